@@ -115,3 +115,12 @@ Theorem C16_go_union_prune_eq : forall (l : list (Obj2 ROps)) (p : V2 ROps),
   @sdf_UnionSDF2_Evaluate ROps (map pf2 l) Rmin false p = @sdf_UnionSDF2_EvaluateSlow ROps (map pf2 l) Rmin p.
 Proof. exact go_union_prune_eq. Qed.
 Print Assumptions C16_go_union_prune_eq.
+
+(* ... and SetMin (the only way to install a blend) sets the flag that makes the translated Evaluate
+   the exhaustive EvaluateSlow, for every blend function, operand list and point. *)
+Theorem C16_go_union_setmin_blend : forall (minf : R -> R -> R) (l : list (Obj2 ROps)) (p : V2 ROps),
+  @sdf_UnionSDF2_SetMin ROps minf = (minf, true) /\
+  @sdf_UnionSDF2_Evaluate ROps (map pf2 l) (fst (@sdf_UnionSDF2_SetMin ROps minf)) (snd (@sdf_UnionSDF2_SetMin ROps minf)) p =
+  @sdf_UnionSDF2_EvaluateSlow ROps (map pf2 l) minf p.
+Proof. exact go_union_setmin_blend. Qed.
+Print Assumptions C16_go_union_setmin_blend.
